@@ -406,6 +406,7 @@ func c03prop(ev *evid.Rec) func(rt *rapid.T) {
 				return a
 			}()}}}, func(rt *rapid.T, w *hlsim.World) {
 			desc := c03desc(hs)
+			w.Log.Keep = true
 			for _, d := range []string{"dir", "other"} {
 				must(os.MkdirAll(filepath.Join(w.FileRoot, d), 0o755))
 			}
@@ -543,13 +544,13 @@ func c03prop(ev *evid.Rec) func(rt *rapid.T) {
 					}
 					ir := lv.c.Request(hlref.TranInviteNewChat, fld(hlref.FUserID, hlref.BE16(1)))
 					cid, ok := ir.Get(hlref.FChatID)
-					if !okReply(ir) || !ok {
-						break
+					if !okReply(ir) || !ok || len(cid) != 4 {
+						break // (not granted, or the reply of an earlier mutated request that used the same transaction id)
 					}
 					lv.c.Request(hlref.TranLeaveChat, fld(hlref.FChatID, cid))
 					settle(time.Second)
 					if r := sentinel.Request(hlref.TranJoinChat, fld(hlref.FChatID, cid)); r == nil || sentinel.EOF() {
-						rt.Fatalf("a hostile user invited the well-behaved client to a private chat and left it at once; the well-behaved client accepted the invitation and got no answer (disconnected: %v): %s", sentinel.EOF(), desc)
+						rt.Fatalf("a hostile user invited the well-behaved client to a private chat and left it at once; the well-behaved client accepted the invitation and got no answer (disconnected: %v): %s\nserver log: %v", sentinel.EOF(), desc, w.Log.Lines())
 					}
 					sentinel.Request(hlref.TranLeaveChat, fld(hlref.FChatID, cid))
 					break
